@@ -710,57 +710,36 @@ bool Session::retrans_callback(const SequencePair& with, RetransmissionContext& 
 {
 	//cout << "first:" << with.first << ' ' << rctx << endl;
 
+	// first number of the requested range not yet answered by a replayed message or a gap fill
+	const unsigned next(rctx._last ? rctx._last + 1 : rctx._begin);
+
 	if (rctx._no_more_records)
 	{
-		/*
-		if (rctx._end)
-		{
-			_next_send_seq = rctx._interrupted_seqnum - 1;
-			send(generate_sequence_reset(rctx._interrupted_seqnum, true), true, rctx._last + 1);
-			//cout << "#1" << endl;
-		}
-		else if (!rctx._last)
-		{
-			_next_send_seq = rctx._interrupted_seqnum;
-			send(generate_sequence_reset(rctx._interrupted_seqnum, true), true, rctx._begin);
-			//cout << "#4" << endl;
-		}
-		*/
-		if (!rctx._last) // start to infinity requested
+		if (rctx._begin >= rctx._interrupted_seqnum)
 		{
 			// handle case where requested seq is greater than current last sent seq (interrupted)
-			const unsigned nseq(rctx._begin >= rctx._interrupted_seqnum ? rctx._begin + 1 : rctx._interrupted_seqnum);
+			const unsigned nseq(rctx._begin + 1);
 			send(generate_sequence_reset(nseq, true), true, rctx._begin);
 			_next_send_seq = nseq;
-			slout_debug << "retrans_callback scenario #" << (nseq == rctx._interrupted_seqnum ? 4 : 5) << ' ' << rctx;
+			slout_debug << "retrans_callback scenario #5 " << rctx;
 		}
-		else // range requested // was: if (rctx._end)
+		else
 		{
-			// handle case where requested seq is greater than current last sent seq (interrupted)
-			const unsigned nseq(rctx._last + 1 >= rctx._interrupted_seqnum ? rctx._last + 2 : rctx._interrupted_seqnum);
-			send(generate_sequence_reset(nseq, true), true, rctx._last + 1);
-			_next_send_seq = nseq;
-			slout_debug << "retrans_callback scenario #" << (nseq == rctx._interrupted_seqnum ? 1 : 6) << ' ' << rctx;
+			// nothing more is stored in the range: gap fill from the first unanswered number to the end of
+			// the requested range (or to the next number to be sent)
+			const unsigned nseq(rctx._end && rctx._end + 1 < rctx._interrupted_seqnum ? rctx._end + 1 : rctx._interrupted_seqnum);
+			if (next < nseq)
+				send(generate_sequence_reset(nseq, true), true, next);
+			slout_debug << "retrans_callback scenario #1 " << rctx;
 		}
 		do_state_change(States::st_continuous);
 		return true;
 	}
 
-	if (rctx._last)
+	if (with.first > next) // numbers without a stored message ahead of this one: the gap fill carries the first of them
 	{
-		if (rctx._last + 1 < with.first)
-		{
-			send(generate_sequence_reset(with.first, true), true, _next_send_seq);
-			slout_debug << "retrans_callback scenario #2, " << rctx;
-		}
-	}
-	else
-	{
-		if (with.first > rctx._begin)
-		{
-			send(generate_sequence_reset(with.first, true));
-			slout_debug << "retrans_callback scenario #3, " << rctx;
-		}
+		send(generate_sequence_reset(with.first, true), true, next);
+		slout_debug << "retrans_callback scenario #2, " << rctx;
 	}
 
 	rctx._last = with.first;
